@@ -207,6 +207,29 @@ def paramReads : List Seg → List String
   | .key k :: _ => [k]
   | _ => []
 
+/-! ## Interpolated strings
+
+`cwl_utils.expression.interpolate` scans a string for `$(…)` / `${…}` placeholders and hands each to the SAME
+`DependencyResolver`: parameter references go to `regex_eval`, everything else to `eval`, and both add to one set
+(`self.deps.add`, `self.deps |= listener.deps`). -/
+
+/-- a placeholder of an interpolated string -/
+inductive Part where
+  | ref (first : String) (segs : List Seg)   -- `$(sym.seg…)`, routed to `regex_eval`
+  | js (prog : Js)                           -- `$(expr)` / `${body}`, routed to `eval`
+
+def partDeps (ck : String) : Part → Except LErr (List String)
+  | .ref f segs => .ok (paramDeps ck f segs)
+  | .js prog => resolve prog
+
+/-- the dependency set of a whole string: the union over its placeholders -/
+def interpDeps (ck : String) : List Part → Except LErr (List String)
+  | [] => .ok []
+  | p :: r => do
+      let a ← partDeps ck p
+      let b ← interpDeps ck r
+      .ok (a ++ b)
+
 /-! ## The evaluator -/
 
 inductive Val where
@@ -394,6 +417,18 @@ def run (fuel : Nat) (prog : Js) : Option (List String) :=
   match eval fuel [1, 0] prog initSt with
   | some (_, st) => some st.reads.reverse.eraseDups
   | none => none
+
+/-- fields of `inputs` a placeholder reads when evaluated -/
+def partReads (fuel : Nat) : Part → Option (List String)
+  | .ref f segs => some (if f = "inputs" then paramReads segs else [])
+  | .js prog => run fuel prog
+
+def interpReads (fuel : Nat) : List Part → Option (List String)
+  | [] => some []
+  | p :: r =>
+      match partReads fuel p, interpReads fuel r with
+      | some a, some b => some (a ++ b)
+      | _, _ => none
 
 /-! ## The fragment the listener handles (hypothesis of `deps_sound_partial`)
 
